@@ -559,6 +559,28 @@ impl Wallet {
         let mut nolan_out: Currency = 0;
         let my_public_key = self.public_key;
 
+        // slips about to be rebroadcast cannot be used (see below): when the usable ones do not
+        // cover the request nothing is consumed and the caller gets no funds at all, instead of
+        // inputs worth less than the outputs it is going to add
+        let usable: Currency = self
+            .unspent_slips
+            .iter()
+            .filter_map(|key| self.slips.get(key))
+            .filter(|slip| slip.block_id > latest_block_id.saturating_sub(genesis_period - 1))
+            .fold(0 as Currency, |sum, slip| sum.saturating_add(slip.amount));
+        if usable < nolan_requested {
+            warn!(
+                "Trying to spend more than usable. requested : {:?}, usable : {:?}",
+                nolan_requested, usable
+            );
+            let placeholder = Slip {
+                public_key: my_public_key,
+                amount: 0,
+                ..Default::default()
+            };
+            return (vec![placeholder.clone()], vec![placeholder]);
+        }
+
         // grab inputs
         let mut keys_to_remove = Vec::new();
         let mut unspent_slips;
